@@ -526,6 +526,31 @@ def run_conf(tools, conf, args=(), stdin=None, timeout=10, scen=None):
             scen.cleanup()
 
 
+def nul_witness(rep, tools):
+    """Known finding F33 (class `nul-ends-config`): a NUL byte at a token position is token 0 = end of input for the generated
+    parser, so everything after it - valid or not - is never read: a file with an error AFTER the NUL passes -n and its first
+    part is carried out.  Exactly that outcome (exit 0, no diagnostic, the rule before the NUL applied) is the listed finding; a
+    diagnostic and a non-zero status is the repaired behaviour; anything else is a violation."""
+    head = 'maildir "%s/src" {\n\tmatch all move "%s/dst"\n}\n' % (R, R)
+    cases = [('error-after-nul', head + '\0\nmaildir "%s/src" {\n\tmatch all\n}\ngarbage\n' % R),
+             ('nul-between-blocks', head + '\0' + 'maildir "%s/src2" {\n\tmatch all move "%s/dst"\n}\n' % (R, R))]
+    stat = {'runs': 0, 'silently_accepted': 0, 'rejected': 0}
+    for name, conf in cases:
+        st, err, changed, helper, opened = run_conf(tools, conf, args=['-n'])
+        stat['runs'] += 1
+        payload = {'stage': 'nul-witness', 'scenario': name, 'config': conf.replace('\0', '<NUL>'), 'exit_status': st, 'stderr': err[-300:],
+                   'what': 'a NUL byte at a token position: -n gives exit status %r, stderr %r' % (st, err[-120:])}
+        if st == 0 and not err.strip():
+            stat['silently_accepted'] += 1
+            if name == 'error-after-nul':
+                rep.finding('nul-ends-config', payload)
+        elif st != 0 and re.search(r'conf:\d+:', err):
+            stat['rejected'] += 1
+        else:
+            rep.finding('unlisted', payload)
+    return stat
+
+
 def pooled(tools, items, fn):
     """fn(item, scen) for every item, each worker thread with ONE sandbox of its own (see run_conf)."""
     nw = max(1, min(vlib.NCPU, len(items)))
@@ -915,6 +940,7 @@ def run(rep):
                        'examples': corr_bad[:6]}, False)
     dconf.conclude('config_parse (parse.y, bison) <-> Model/Conf.lean parseConfig: accept/reject, first diagnostic line, trees, yylex calls')
     rep.coverage['command_line'] = cmdline.stage(rep, sc, tools, W)      # argument vectors and environments: refused => exit 1 and no call (tools/cmdline.py)
+    rep.coverage['nul_ends_configuration'] = nul_witness(rep, tools)      # F33
     vlib.lean_conclude(rep)
     rep.coverage.update({
         'evaluations': len(texts) + len(results),
